@@ -140,7 +140,31 @@ impl Prop for C06 {
                     let mut must_not: Vec<usize> = vec![];
                     let after_end = (red + 4) as u32;
                     for _ in 0..n {
-                        match r.pick_w(&[35, 35, 30]) {
+                        match r.pick_w(&[30, 30, 25, if is_pcancel(v) { 0 } else { 25 }]) {
+                            3 => {
+                                // the one-shot key is tapped, then pressed again and HELD while the
+                                // one-shot is still active: as long as it is held it acts as the plain
+                                // key, so both following keys are modified (the one-shot's own end by
+                                // the first of them must not release a key that is physically down)
+                                ops.push(Op::Press(a));
+                                ops.push(Op::Gap(2));
+                                ops.push(Op::Release(a));
+                                ops.push(Op::Gap(r.range(2, 5) as u32));
+                                ops.push(Op::Press(a));
+                                ops.push(Op::Gap(r.range(2, 5) as u32));
+                                must_mod.push(ops.len());
+                                ops.push(Op::Press(c));
+                                ops.push(Op::Gap(3));
+                                ops.push(Op::Release(c));
+                                ops.push(Op::Gap(after_end + *r.pick(&[0u32, 0, t as u32 + 10])));
+                                must_mod.push(ops.len());
+                                ops.push(Op::Press(b));
+                                ops.push(Op::Gap(3));
+                                ops.push(Op::Release(b));
+                                ops.push(Op::Gap(3));
+                                ops.push(Op::Release(a));
+                                ops.push(Op::Gap(after_end));
+                            }
                             0 => {
                                 // expires while X is held
                                 let pre = r.chance(500);
